@@ -112,6 +112,8 @@ def case_lstsq(c, code):
     if c0 is not None:
         kw["sing_val_cutoff"] = c0
     svd = SVD(A, **kw)
+    for pr, pc in c.get("pre_calls", []):          # earlier calls on the same object, other settings
+        svd.lstsq(b, rcond=None if pr is None else float.fromhex(pr), sing_val_cutoff=pc)
     x = np.asarray(svd.lstsq(b, rcond=r1, sing_val_cutoff=c1), dtype=float)
     fails, obs = [], {"x": hx(x), "s": hx(svd.s)}
     U, s, Vh = svd.U, svd.s, svd.Vh
